@@ -190,6 +190,17 @@ def check_named(case):
                 s = f(yt, yp, sensitive_features=g, sample_weight=[c * x for x in w], **kw)
                 if not _same(a, s, 1e-9):
                     raise PropertyViolation(f"{name}({kw}): scaling weights by {c} changes {a!r} -> {s!r}")
+                # weights normalised to mean one (the most common scaling): non-uniform positive weights whose sum is
+                # exactly the number of rows - here halves of integers that sum to 2n
+                last = 2 * len(yt) - sum(w[:-1])
+                if last >= 1:
+                    w2 = list(w[:-1]) + [float(last)]
+                    full = f(yt, yp, sensitive_features=g, sample_weight=w2, **kw)
+                    half = f(yt, yp, sensitive_features=g, sample_weight=[0.5 * x for x in w2], **kw)
+                    if not _same(full, half, 1e-12):
+                        raise PropertyViolation(f"{name}({kw}): weights {w2} give {full!r}, the same weights halved (sum = number of rows) give {half!r}")
+                    if len(set(w2)) > 1:
+                        tags.add("mean_one_weights")
                 o = f(yt, yp, sensitive_features=g, sample_weight=[1.0] * len(yt), **kw)
                 nn = f(yt, yp, sensitive_features=g, **kw)
                 if not _same(o, nn, 1e-12):
